@@ -111,9 +111,38 @@ class Net:
         return len(path_uids) >= 1 and all(b in self.succ[a] for a, b in zip(path_uids, path_uids[1:]))
 
     def links(self, path_uids):
-        """ROADM-to-ROADM links crossed by a path, from own OMS computation: set of (roadm a, roadm b)"""
+        """ROADM-to-ROADM links crossed by a path as ROADM pairs (a, b) (what the Lean checker keys links by)"""
         r = [u for u in path_uids if u in self.idx and self.kinds[self.idx[u]] == 'R']
         return list(zip(r, r[1:]))
+
+    def oms_seq(self, path_uids):
+        """the lines (own OMS computation: index into self.lines) crossed by a path, in order"""
+        out = []
+        for u in path_uids:
+            k = self.line_of.get(u)
+            if k is not None and (not out or out[-1] != k):
+                out.append(k)
+        return out
+
+    def has_parallel(self):
+        pairs = [(a, b) for a, b, _ in self.lines]
+        return len(set(pairs)) < len(pairs)
+
+    def opposite(self, k):
+        """the line that is the opposite direction of line k: the only line b -> a, or None when there is none or the two
+        ROADMs are joined by parallel links (then the pairing is not determined by the topology)"""
+        a, b, _ = self.lines[k]
+        back = [j for j, ln in enumerate(self.lines) if ln[0] == b and ln[1] == a]
+        fwd = [j for j, ln in enumerate(self.lines) if ln[0] == a and ln[1] == b]
+        return back[0] if len(back) == 1 and len(fwd) == 1 else None
+
+    def impl_reverse(self, k):
+        """the line the IMPLEMENTATION takes for the reverse of line k (oms.reversed_oms), an input of the selection model"""
+        el = self.node[self.lines[k][2][1]]
+        ro = getattr(getattr(el, 'oms', None), 'reversed_oms', None)
+        if ro is None:
+            return None
+        return self.line_of.get(ro.el_list[1].uid)
 
 
 def crosses_in_order(inc, path):
@@ -132,11 +161,23 @@ def get_net(mesh):
     return _NETS[key]
 
 
-def link_disjoint(net, p, q):
-    """no common ROADM-to-ROADM link, a link and its opposite direction identified"""
-    lq = set(net.links(q))
-    for (a, b) in net.links(p):
-        if (a, b) in lq or (b, a) in lq:
+def link_disjoint(net, p, q, mode='lenient'):
+    """no common ROADM-to-ROADM link, a link and its opposite direction identified.  Links are identified by OMS (own
+    computation).  Without parallel links every mode gives the same answer.  With parallel links between two ROADMs the
+    topology does not say which backward line is 'the' opposite of a forward line:
+      'lenient' : definite sharing only (same line; opposite line only where the pairing is unambiguous)
+      'strict'  : ROADM pairs, any line between the same two ROADMs in either direction counts (= the Lean checker)
+      'impl'    : same line, or q crosses the line the implementation registered as the reverse (oms.reversed_oms) of a
+                  line of p - exactly the test of step 2 for the new path p against an earlier path q"""
+    if mode == 'strict':
+        lq = set(net.links(q))
+        return not any((a, b) in lq or (b, a) in lq for (a, b) in net.links(p))
+    sq = set(net.oms_seq(q))
+    for k in net.oms_seq(p):
+        if k in sq:
+            return False
+        o = net.opposite(k) if mode == 'lenient' else net.impl_reverse(k)
+        if o is not None and o in sq:
             return False
     return True
 
@@ -181,7 +222,8 @@ def resolve(net, item):
 def mesh_adj(mesh):
     """ROADM-level directed adjacency of a mesh description"""
     adj = {i: [] for i in range(mesh['n'])}
-    for (a, b, ab, ba, _) in mesh['links']:
+    for lk in mesh['links']:
+        a, b, ab, ba = lk[:4]
         if ab:
             adj[a].append(b)
         if ba:
